@@ -144,3 +144,11 @@ Proof.
   - left. apply abs_path_no_authority_slash. exact H.
   - left. apply abs_path_other; auto.
 Qed.
+
+(* taking the absolute path twice changes nothing: the result is empty or already in origin form *)
+Lemma abs_path_idempotent u : abs_path (abs_path u) = abs_path u.
+Proof.
+  destruct (abs_path_suffix u) as [E|(pre & r & _ & E)]; rewrite E.
+  - reflexivity.
+  - apply abs_path_origin_form.
+Qed.
